@@ -55,6 +55,9 @@ struct Proc {
     stdin_closed_logged: bool,
     collect_errno: Option<i32>,
     known_blocked: bool,
+    /// output drained so far by an unfinished wait_with_output
+    collected_out: Vec<u8>,
+    collected_err: Vec<u8>,
 }
 
 pub struct Kernel {
@@ -67,6 +70,17 @@ pub struct Kernel {
     seq: u64,
     spawned_per_program: std::collections::BTreeMap<String, usize>,
     pub active: bool,
+    /// incremented whenever the state of a pipe or a process changes (used to notice progress by other threads)
+    pub progress: u64,
+    /// largest number of real threads seen at a blocking seam call (1 for the shipped, single-threaded compiler)
+    pub max_threads: usize,
+}
+
+/// Outcome of one attempt at a blocking compiler-side operation.
+pub enum Attempt<R> {
+    Done(R),
+    /// the operation cannot complete and no simulated generator can take a step
+    Stuck { progress: u64, detail: String },
 }
 
 pub static KERNEL: Mutex<Option<Kernel>> = Mutex::new(None);
@@ -97,6 +111,8 @@ impl Kernel {
             seq: 0,
             spawned_per_program: Default::default(),
             active: true,
+            progress: 0,
+            max_threads: 1,
         }
     }
 
@@ -117,7 +133,7 @@ impl Kernel {
         value
     }
 
-    fn die_hang(&mut self, detail: String) -> ! {
+    pub fn die_hang(&mut self, detail: String) -> ! {
         self.emit(Ev::Hang { detail });
         raw::exit_now(EXIT_HANG)
     }
@@ -132,6 +148,7 @@ impl Kernel {
     }
 
     fn unblock_all(&mut self) {
+        self.progress += 1;
         for p in self.procs.iter_mut() {
             p.known_blocked = false;
         }
@@ -494,6 +511,8 @@ impl Kernel {
             stdin_closed_logged: false,
             collect_errno: gen.collect_errno,
             known_blocked: false,
+            collected_out: Vec::new(),
+            collected_err: Vec::new(),
         });
         self.emit(Ev::Spawn { gen: g, program: program.to_owned(), args, stdin: kinds[0].clone(), stdout: kinds[1].clone(), stderr: kinds[2].clone(), result: g as i32, label: gen.label });
         Ok(g)
@@ -504,17 +523,20 @@ impl Kernel {
     }
 
     /// `write` on the compiler's end of a generator's stdin.
-    pub fn stdin_write(&mut self, g: usize, pipe: usize, buf: &[u8]) -> Result<usize, i32> {
-        self.pre("stdin-write");
+    pub fn stdin_write(&mut self, g: usize, pipe: usize, buf: &[u8], first_attempt: bool) -> Attempt<Result<usize, i32>> {
+        use Attempt::Done;
+        if first_attempt {
+            self.pre("stdin-write");
+        }
         if buf.is_empty() {
-            return Ok(0);
+            return Done(Ok(0));
         }
         let mut logged_block = false;
         loop {
             if !self.pipes[pipe].reader_open {
                 let total = self.procs[g].accepted.len();
                 self.emit(Ev::StdinWrite { gen: g, requested: buf.len(), result: -(libc::EPIPE as i64), total, fault: String::new() });
-                return Err(libc::EPIPE);
+                return Done(Err(libc::EPIPE));
             }
             let space = self.pipes[pipe].space();
             if space > 0 {
@@ -522,7 +544,7 @@ impl Kernel {
                 if self.sim.buggify.eintr_pipe_write && self.choose("stdin-eintr", 8) == 1 {
                     let total = self.procs[g].accepted.len();
                     self.emit(Ev::StdinWrite { gen: g, requested: buf.len(), result: -(libc::EINTR as i64), total, fault: "eintr".into() });
-                    return Err(libc::EINTR);
+                    return Done(Err(libc::EINTR));
                 }
                 let mut n = space.min(buf.len());
                 if self.sim.buggify.short_pipe_write && n > 1 {
@@ -543,7 +565,7 @@ impl Kernel {
                 let total = self.procs[g].accepted.len();
                 self.emit(Ev::StdinWrite { gen: g, requested: buf.len(), result: n as i64, total, fault });
                 self.unblock_all();
-                return Ok(n);
+                return Done(Ok(n));
             }
             // pipe full: the compiler blocks, generators run
             if !logged_block {
@@ -552,7 +574,7 @@ impl Kernel {
             }
             if !self.step_someone("blocked-stdin-write") {
                 let d = format!("compiler blocked writing {} bytes to the stdin of generator {} ('{}'): the pipe is full and no generator can take a step", buf.len(), g, self.procs[g].program);
-                self.die_hang(d);
+                return Attempt::Stuck { progress: self.progress, detail: d };
             }
         }
     }
@@ -566,16 +588,19 @@ impl Kernel {
             self.procs[g].stdin_closed_logged = true;
             let total = self.procs[g].accepted.len();
             let h = hex(&self.procs[g].accepted);
-            self.emit(Ev::StdinClose { gen: g, total, hex: h });
+            self.emit(Ev::StdinClose { gen: g, total, hex: h, at_exit: false });
         }
         self.unblock_all();
     }
 
     /// Blocking read on the compiler's end of a generator's stdout / stderr.
-    pub fn pipe_read(&mut self, g: usize, fd: u8, pipe: usize, buf: &mut [u8]) -> Result<usize, i32> {
-        self.pre("pipe-read");
+    pub fn pipe_read(&mut self, g: usize, fd: u8, pipe: usize, buf: &mut [u8], first_attempt: bool) -> Attempt<Result<usize, i32>> {
+        use Attempt::Done;
+        if first_attempt {
+            self.pre("pipe-read");
+        }
         if buf.is_empty() {
-            return Ok(0);
+            return Done(Ok(0));
         }
         let mut logged_block = false;
         loop {
@@ -587,11 +612,11 @@ impl Kernel {
                 let h = hex(&buf[..n]);
                 self.emit(Ev::PipeRead { gen: g, fd, requested: buf.len(), result: n as i64, hex: h });
                 self.unblock_all();
-                return Ok(n);
+                return Done(Ok(n));
             }
             if !self.pipes[pipe].writer_open {
                 self.emit(Ev::PipeRead { gen: g, fd, requested: buf.len(), result: 0, hex: String::new() });
-                return Ok(0);
+                return Done(Ok(0));
             }
             if !logged_block {
                 self.emit(Ev::Blocked { gen: g, op: format!("read-fd{fd}") });
@@ -599,7 +624,7 @@ impl Kernel {
             }
             if !self.step_someone("blocked-pipe-read") {
                 let d = format!("compiler blocked reading fd {} of generator {} ('{}'): nothing to read, the write end is open and no generator can take a step", fd, g, self.procs[g].program);
-                self.die_hang(d);
+                return Attempt::Stuck { progress: self.progress, detail: d };
             }
         }
     }
@@ -621,6 +646,10 @@ impl Kernel {
 
     pub fn try_wait(&mut self, g: usize) -> Result<Option<i32>, i32> {
         self.pre("try-wait");
+        // a compiler that polls gives real processes time to run between polls, whatever the scheduler mode
+        if self.procs[g].status.is_none() {
+            self.step_someone("poll");
+        }
         let st = self.procs[g].status;
         if st.is_some() {
             self.procs[g].reaped = true;
@@ -630,8 +659,10 @@ impl Kernel {
     }
 
     /// `wait`: blocks until the process has exited; does NOT drain its output pipes.
-    pub fn wait(&mut self, g: usize) -> Result<i32, i32> {
-        self.pre("wait");
+    pub fn wait(&mut self, g: usize, first_attempt: bool) -> Attempt<Result<i32, i32>> {
+        if first_attempt {
+            self.pre("wait");
+        }
         let mut logged_block = false;
         while self.procs[g].status.is_none() {
             if !logged_block {
@@ -640,20 +671,22 @@ impl Kernel {
             }
             if !self.step_someone("blocked-wait") {
                 let d = format!("compiler blocked in wait() for generator {} ('{}') which cannot take a step (script op #{})", g, self.procs[g].program, self.procs[g].pc);
-                self.die_hang(d);
+                return Attempt::Stuck { progress: self.progress, detail: d };
             }
         }
         self.procs[g].reaped = true;
         let status = self.procs[g].status.unwrap();
         self.emit(Ev::Wait { gen: g, op: "wait".into(), status, stdout_len: 0, stderr_len: 0, stdout_hex: String::new(), stderr_hex: String::new(), result: 0 });
-        Ok(status)
+        Attempt::Done(Ok(status))
     }
 
     /// `wait_with_output`: stdin is already closed by the caller; drains both pipes concurrently, then reaps.
-    pub fn wait_with_output(&mut self, g: usize, out_pipe: Option<usize>, err_pipe: Option<usize>) -> Result<(i32, Vec<u8>, Vec<u8>), i32> {
-        self.pre("wait-with-output");
-        let mut out = Vec::new();
-        let mut err = Vec::new();
+    pub fn wait_with_output(&mut self, g: usize, out_pipe: Option<usize>, err_pipe: Option<usize>, first_attempt: bool) -> Attempt<Result<(i32, Vec<u8>, Vec<u8>), i32>> {
+        if first_attempt {
+            self.pre("wait-with-output");
+        }
+        let mut out = std::mem::take(&mut self.procs[g].collected_out);
+        let mut err = std::mem::take(&mut self.procs[g].collected_err);
         let mut logged_block = false;
         loop {
             let mut moved = false;
@@ -679,7 +712,9 @@ impl Kernel {
             }
             if !self.step_someone("blocked-collect") {
                 let d = format!("compiler blocked collecting generator {} ('{}') which cannot take a step (script op #{})", g, self.procs[g].program, self.procs[g].pc);
-                self.die_hang(d);
+                self.procs[g].collected_out = out;
+                self.procs[g].collected_err = err;
+                return Attempt::Stuck { progress: self.progress, detail: d };
             }
         }
         for p in [out_pipe, err_pipe].into_iter().flatten() {
@@ -690,9 +725,9 @@ impl Kernel {
         let result = self.procs[g].collect_errno.unwrap_or(0);
         self.emit(Ev::Wait { gen: g, op: "wait_with_output".into(), status, stdout_len: out.len(), stderr_len: err.len(), stdout_hex: hex(&out), stderr_hex: hex(&err), result: -result });
         if result != 0 {
-            return Err(result);
+            return Attempt::Done(Err(result));
         }
-        Ok((status, out, err))
+        Attempt::Done(Ok((status, out, err)))
     }
 
     pub fn finish(&mut self) {
@@ -703,11 +738,12 @@ impl Kernel {
                 self.procs[g].stdin_closed_logged = true;
                 let total = self.procs[g].accepted.len();
                 let h = hex(&self.procs[g].accepted);
-                self.emit(Ev::StdinClose { gen: g, total, hex: h });
+                self.emit(Ev::StdinClose { gen: g, total, hex: h, at_exit: true });
             }
         }
         let steps = self.steps;
-        self.emit(Ev::End { steps, unreaped });
+        let max_threads = self.max_threads;
+        self.emit(Ev::End { steps, unreaped, max_threads });
     }
 }
 
